@@ -12,7 +12,7 @@ use std::collections::BTreeMap;
 use std::f64::consts::PI;
 
 pub fn prop() -> Prop {
-    Prop { id: "C04", corr, laws, extra, law_budget: (14, 220) }
+    Prop { id: "C04", corr, laws, extra, law_budget: (250, 2500) }
 }
 
 // ------------------------------------------------------------------ style encoding
@@ -257,7 +257,7 @@ fn gen_style(r: &mut Rng, exact: bool) -> Vec<f64> {
 }
 
 fn corr(r: &mut Rng, thorough: bool, o: &mut Out) {
-    let n = if thorough { 9000 } else { 700 };
+    let n = if thorough { 12000 } else { 1200 };
     let mut tags: BTreeMap<String, u64> = BTreeMap::new();
     for i in 0..n {
         let exact = i % 2 == 0;
@@ -682,7 +682,9 @@ fn region_core(inst: Inst, fixed_q: Option<Point>) -> Option<(String, String)> {
     let half = 0.5 * w;
     let reach = reach_factor(&inst.a) * half;
     let all_round = inst.a[1] as i32 == 2 && inst.a[3] as i32 == 2 && inst.a[4] as i32 == 2;
-    let kind = if is_polyline(&inst.els) { "polyline" } else { "curve" };
+    // "curve-tight": some curved source segment has a radius of curvature not comfortably above width/2
+    // (there the parallel-curve construction is not the exact sweep; only round joins + caps reach such input)
+    let kind = if is_polyline(&inst.els) { "polyline" } else if src.iter().all(|s| s.curv_ok) { "curve" } else { "curve-tight" };
     let dashed = if inst.dashes.is_empty() { "" } else { ":dashed" };
     // bounding box of the source
     let (mut x0, mut y0, mut x1, mut y1) = (f64::INFINITY, f64::INFINITY, f64::NEG_INFINITY, f64::NEG_INFINITY);
@@ -733,7 +735,8 @@ fn region_core(inst: Inst, fixed_q: Option<Point>) -> Option<(String, String)> {
         for s in &src {
             let (d, pos) = s.dist(q);
             dmin = dmin.min(d);
-            if d <= half - band && (s.is_line || s.curv_ok) {
+            // (a tight curve elsewhere in the path can cancel coverage here: outside the property's domain unless round/round)
+            if d <= half - band && (s.is_line || s.curv_ok) && kind != "curve-tight" {
                 let l = s.len();
                 let interior = pos >= band && pos <= l - band;
                 let de = (q - s.pts[0]).hypot().min((q - *s.pts.last().unwrap()).hypot());
@@ -1120,9 +1123,25 @@ fn gen_wild_cubics(r: &mut Rng) -> Vec<PathEl> {
                 p = q;
             }
             2 => {
-                let (a, b) = (gp(r), gp(r));
-                els.push(PathEl::QuadTo(a, b));
-                p = b;
+                if r.bool() {
+                    let (a, b) = (gp(r), gp(r));
+                    els.push(PathEl::QuadTo(a, b));
+                    p = b;
+                } else {
+                    // control points on one line (do_linear): overshoot and return, cusps inside or at the ends
+                    let d = gp(r) - p;
+                    let (s1, s2, s3) = match r.below(4) {
+                        0 => (r.uniform(0.5, 2.0), r.uniform(-0.5, 0.5), r.uniform(0.3, 1.0)),
+                        1 => (r.uniform(-0.5, 0.5), r.uniform(0.8, 1.8), 1.0),
+                        2 => (r.uniform(0.2, 0.4), r.uniform(0.6, 0.8), 1.0),
+                        _ => (r.uniform(-1.0, 2.0), r.uniform(-1.0, 2.0), r.uniform(-1.0, 2.0)),
+                    };
+                    let e = p + d * s3;
+                    if e != p {
+                        els.push(PathEl::CurveTo(p + d * s1, p + d * s2, e));
+                        p = e;
+                    }
+                }
             }
             3 => {
                 let b = gp(r);
@@ -1318,9 +1337,42 @@ fn extra(r: &mut Rng, thorough: bool, o: &mut Out) {
         let res = law_outline_bounded(&a);
         o.known("C04-hairpin-wild-outline", res.is_some(), res.map(|x| x.1).unwrap_or_else(|| "outline of the witness is bounded".into()));
     }
-    // the collinear cubic A,B,A,B named in DESIGN.md section 5 (#8)
-    let (pa, pb) = (Point::new(0.0, 0.0), Point::new(10.0, 0.0));
-    let els = [PathEl::MoveTo(pa), PathEl::CurveTo(pb, pa, pb)];
-    let out = stroke(els.iter().cloned(), &Stroke::new(1.0), &StrokeOpts::default(), 0.1);
-    o.notes.push(format!("collinear cubic A,B,A,B (C14): outline finite = {}", all_finite(out.elements())));
+    // known findings on curves whose radius of curvature drops below width/2 (round joins and caps):
+    // the outline is built from parallel curves, not from the exact sweep (stroke.rs says so itself)
+    {
+        let els = [
+            PathEl::MoveTo(Point::new(9.499634494534643, -8.126448073381853)),
+            PathEl::CurveTo(Point::new(-1.488752582710184, 2.23534158027398), Point::new(3.157241217623344, -10.449444973548617), Point::new(4.853640694201115, 4.558338480440744)),
+            PathEl::ClosePath,
+        ];
+        let mut a = vec![2.5996601595717213, -0.12003054839953275];
+        a.extend(encode(&[6.751305898077076, 2.0, 4.0, 2.0, 2.0, 0.06561294281056844], 0, 1, 0.0, &[], &els));
+        let res = law_region_at(&a);
+        o.known("C04-tight-curve-uncovered", res.is_some(), res.map(|x| x.1).unwrap_or_else(|| "witness point is covered".into()));
+        let els = [
+            PathEl::MoveTo(Point::new(-4.891905427624228, 4.668559868765865)),
+            PathEl::CurveTo(Point::new(5.310064929314464, -3.476929891000487), Point::new(5.398067579781608, 4.4942493981818), Point::new(-5.026922418289281, -3.3018230051334863)),
+        ];
+        let mut a = vec![3.6976635443693144, 0.3134411868911364];
+        a.extend(encode(&[1.4824189817891884, 2.0, 4.0, 2.0, 2.0, 0.02177987061405037], 0, 1, 0.0, &[], &els));
+        let res = law_region_at(&a);
+        o.known("C04-tight-curve-overreach", res.is_some(), res.map(|x| x.1).unwrap_or_else(|| "witness point is outside the fill".into()));
+    }
+    // the collinear cubic A,B,A,B named in DESIGN.md section 5 (#8): random instances, counted only
+    let (mut nan, tot) = (0, if thorough { 2000 } else { 200 });
+    let mut first: Option<String> = None;
+    for _ in 0..tot {
+        let (pa, pb) = (Point::new(r.uniform(-10.0, 10.0), r.uniform(-10.0, 10.0)), Point::new(r.uniform(-10.0, 10.0), r.uniform(-10.0, 10.0)));
+        let els = [PathEl::MoveTo(pa), PathEl::CurveTo(pb, pa, pb)];
+        let w = log_uniform(r, 0.05, 10.0);
+        let tol = log_uniform(r, 1e-3, 0.5);
+        let out = stroke(els.iter().cloned(), &Stroke::new(w), &StrokeOpts::default(), tol);
+        if !all_finite(out.elements()) {
+            nan += 1;
+            if first.is_none() {
+                first = Some(format!("A={:?} B={:?} width={} tolerance={}", pa, pb, w, tol));
+            }
+        }
+    }
+    o.notes.push(format!("collinear cubic A,B,A,B (C14): non-finite outline in {} of {} random instances{}", nan, tot, first.map(|f| format!("; first: {}", f)).unwrap_or_default()));
 }
